@@ -255,6 +255,72 @@ func c02AltPersisted(fd *ast.FuncDecl) bool {
 	return total >= 1 && total == inIf
 }
 
+// c02FindIfFirst: the first if-statement (source order) whose condition mentions all words.
+func c02FindIfFirst(fd *ast.FuncDecl, words ...string) *ast.IfStmt {
+	var res *ast.IfStmt
+	if fd == nil || fd.Body == nil {
+		return nil
+	}
+	ast.Inspect(fd.Body, func(n ast.Node) bool {
+		if res != nil {
+			return false
+		}
+		if i, ok := n.(*ast.IfStmt); ok {
+			c := src(i.Cond)
+			for _, wd := range words {
+				if !strings.Contains(c, wd) {
+					return true
+				}
+			}
+			res = i
+			return false
+		}
+		return true
+	})
+	return res
+}
+
+// c02WriterShape classifies a part writer: ("singleton", guard) for `if f.X != nil … { marshal, store }`,
+// ("map", "f.X") for `for path, v := range f.X`, ("syncmap", "f.X") for `f.X.Range(func…)`,
+// ("loader", "") for sharedStringsLoader (moves a spilled table back, renders nothing).
+func c02WriterShape(fd *ast.FuncDecl) (string, string) {
+	if fd == nil || fd.Body == nil {
+		return "?", ""
+	}
+	if fd.Name.Name == "sharedStringsLoader" {
+		return "loader", ""
+	}
+	stores := false
+	ast.Inspect(fd.Body, func(n ast.Node) bool {
+		if c, ok := n.(*ast.CallExpr); ok {
+			if nm := c02Expr(c.Fun); nm == "f.saveFileList" || nm == "f.Pkg.Store" {
+				stores = true
+			}
+		}
+		return true
+	})
+	if !stores {
+		return "?", ""
+	}
+	for _, st := range fd.Body.List {
+		switch x := st.(type) {
+		case *ast.RangeStmt:
+			return "map", c02Expr(x.X)
+		case *ast.ExprStmt:
+			if c, ok := x.X.(*ast.CallExpr); ok {
+				if sel, ok := c.Fun.(*ast.SelectorExpr); ok && sel.Sel.Name == "Range" {
+					return "syncmap", c02Expr(sel.X)
+				}
+			}
+		case *ast.IfStmt:
+			if strings.Contains(src(x.Cond), "!= nil") && x.Else == nil {
+				return "singleton", strings.Join(strings.Fields(src(x.Cond)), " ")
+			}
+		}
+	}
+	return "?", ""
+}
+
 func init() {
 	addSection("C02", func(w *bytes.Buffer) {
 		w.WriteString("/-! file.go writeToZip: the part writers in call order, and the File state each of them destroys -/\n")
@@ -284,6 +350,51 @@ func init() {
 				fail("C02: writer (*File).%s", name)
 			}
 			fmt.Fprintf(w, "\n  (%s, %s)", leanStr(name), c02LeanList(c02Clears(fd)))
+		}
+		w.WriteString("]\n")
+		// shape of every writer: the loaded state it renders from and its guard
+		var guards [][2]string
+		w.WriteString("def writerShapes : List (String × String × String) := [")
+		for i, name := range writers {
+			if i > 0 {
+				w.WriteString(",")
+			}
+			kind, subj := c02WriterShape(funcDecl("File", name))
+			if kind == "?" {
+				fail("C02: shape of writer (*File).%s", name)
+			}
+			if kind == "singleton" {
+				guards = append(guards, [2]string{name, subj})
+				subj = strings.SplitN(subj, " != nil", 2)[0]
+			}
+			fmt.Fprintf(w, "\n  (%s, %s, %s)", leanStr(name), leanStr(kind), leanStr(subj))
+		}
+		w.WriteString("]\n")
+		w.WriteString("def writerGuards : List (String × String) := [")
+		for i, gd := range guards {
+			if i > 0 {
+				w.WriteString(",")
+			}
+			fmt.Fprintf(w, "\n  (%s, %s)", leanStr(gd[0]), leanStr(gd[1]))
+		}
+		w.WriteString("]\n")
+		// the readers of the singletons: decode the part only when nothing is loaded
+		w.WriteString("def readerCaches : List (String × String) := [")
+		for i, name := range []string{"calcChainReader", "contentTypesReader", "stylesReader", "sharedStringsReader",
+			"workbookReader", "relsReader", "commentsReader"} {
+			if i > 0 {
+				w.WriteString(",")
+			}
+			cond := "<missing>"
+			if fd := funcDecl("File", name); fd != nil {
+				if is := c02FindIfFirst(fd, "nil"); is != nil {
+					cond = strings.Join(strings.Fields(src(is.Cond)), " ")
+				}
+			}
+			if cond == "<missing>" {
+				fail("C02: cache test of reader (*File).%s", name)
+			}
+			fmt.Fprintf(w, "\n  (%s, %s)", leanStr(name), leanStr(cond))
 		}
 		w.WriteString("]\n")
 		fmt.Fprintf(w, "def workbookAltPersisted : Bool := %v\n", c02AltPersisted(funcDecl("File", "workBookWriter")))
